@@ -119,17 +119,24 @@ func (fd *FieldData) StringValues() ([]string, error) {
 	if fd == nil || len(fd.data) == 0 {
 		return nil, ErrTagNotFound
 	}
-	s, err := sliceValue(fd, csproto.WireTypeLengthDelimited, fd.stringSlice, func(data []byte) (string, int, error) {
-		if fd.unsafe {
-			return unsafe.String(unsafe.SliceData(data), len(data)), len(data), nil
-		}
-		return string(data), len(data), nil
-	})
+	if fd.wt != csproto.WireTypeLengthDelimited {
+		return nil, wireTypeMismatchError(fd.wt, csproto.WireTypeLengthDelimited)
+	}
+	// every occurrence is exactly one string, empty strings included
 	if fd.unsafe {
+		s := fd.stringSlice[:0]
+		for _, data := range fd.data {
+			s = append(s, unsafe.String(unsafe.SliceData(data), len(data)))
+		}
 		fd.maxCap = max(fd.maxCap, cap(s))
 		fd.stringSlice = s
+		return s, nil
 	}
-	return s, err
+	s := make([]string, 0, len(fd.data))
+	for _, data := range fd.data {
+		s = append(s, string(data))
+	}
+	return s, nil
 }
 
 // BytesValue converts the lazily-decoded field data into a []byte.
@@ -150,6 +157,9 @@ func (fd *FieldData) BytesValue() ([]byte, error) {
 func (fd *FieldData) BytesValues() ([][]byte, error) {
 	if fd == nil || len(fd.data) == 0 {
 		return nil, ErrTagNotFound
+	}
+	if fd.wt != csproto.WireTypeLengthDelimited {
+		return nil, wireTypeMismatchError(fd.wt, csproto.WireTypeLengthDelimited)
 	}
 	if fd.unsafe {
 		return fd.data, nil
